@@ -6,6 +6,7 @@ import Driver.Links
 import Driver.Build
 import Driver.Structure
 import Driver.Clip
+import Driver.Values
 open Driver
 
 def step (line : String) : String :=
@@ -27,6 +28,10 @@ def step (line : String) : String :=
   | "rxryobs" :: args => handleStructure "rxryobs" args
   | "switch" :: args => handleStructure "switch" args
   | "clipf" :: args => handleClip args
+  | "stops" :: args => handleValues "stops" args
+  | "dash" :: args => handleValues "dash" args
+  | "miter" :: args => handleValues "miter" args
+  | "units" :: args => handleValues "units" args
   | "build" :: args => handleBuild args
   | "casc" :: args => handleCascade "casc" args
   | "expand" :: args => handleCascade "expand" args
